@@ -83,6 +83,36 @@ def run(chk, ctx):
            'writes %s' % (T.show(j.value)[:120] if j else None),
            detail={'expected': 'pack(u8 type, u16 channel, u32 len(payload))'
                    ' ++ payload ++ one end octet'}, site=site2)
+    # every frame kind goes through that envelope exactly once: the output
+    # of frame.marshal is header(size = len(payload)) ++ payload ++ end
+    from .. import hdrlayout as H
+    pol = codec.FramePolicy(prog)
+
+    def one_envelope(name, term):
+        env_ = L.parse_envelope(term) if term is not None else None
+        okk_ = env_ is not None and T.sub(
+            env_['size'], L.payload_length(env_['payload'])) == 0 and \
+            T.fmt(env_['fmt']).norm() == F.ENVELOPE and \
+            isinstance(env_['end'], bytes) and len(env_['end']) == 1
+        chk.ob('C20.P', 'frame.marshal(%s)' % name, okk_,
+               'one envelope whose size field is the payload length' if okk_
+               else 'output is %s' % T.show(term)[:140],
+               site='pamqp/frame.py::marshal')
+
+    it3 = ctx.interp(pol)
+    st3 = ctx.new_state()
+    bref = it3.alloc(st3, I.InstObj(prog.cls('body.ContentBody'),
+                                    {'value': Sym('field', 'value')}))
+    outs3 = it3.run_function(prog.function('frame.marshal'),
+                             [bref, Sym('param', 'channel_id')], {}, st3)
+    j3 = L.joined_return(it3, outs3)
+    one_envelope('ContentBody', j3.value if j3 is not None else None)
+    he = H.encode(ctx, pol)
+    one_envelope('ContentHeader', he.get('term'))
+    keys0 = ctx.index_mapping()
+    if keys0:
+        me = L.method_encode(ctx, pol, keys0[0][1])
+        one_envelope(keys0[0][1].short, me.get('term'))
     st_it = ctx.static()
     hb = st_it.class_attr(prog.cls('heartbeat.Heartbeat'), 'value')
     import struct
